@@ -321,6 +321,35 @@ fn check_family(rep: &mut Report, k: usize, rc: bool, fam: &Fam, dir: &str) -> V
             Ok(())
         })());
     }
+    // output prefixes that contain dots: the file must be <prefix>.skf and nothing else may be touched
+    {
+        let before = std::fs::read(format!("{dir}/x.skf")).unwrap_or_default();
+        let mut a: Vec<String> = vec!["build".into(), "-k".into(), ks.clone(), "-o".into(), "out.v2".into()];
+        a.extend(names.iter().map(|n| format!("{n}.fa")));
+        a.extend(ss.iter().map(|s| s.to_string()));
+        let av: Vec<&str> = a.iter().map(|s| s.as_str()).collect();
+        let o1 = cli::run(&av, dir, None);
+        let o2 = cli::run(&["merge", "x.skf", "y.skf", "-o", "x.plus_y"], dir, None);
+        let o3 = if names.len() >= 2 { Some(cli::run(&["delete", "-s", "x.skf", "-o", "x.minus.first", &names[0]], dir, None)) } else { None };
+        step(rep, "output prefix with dots", (|| {
+            if o1.code != 0 || o2.code != 0 || o3.as_ref().map_or(false, |o| o.code != 0) {
+                return Err("a command with a dotted -o prefix failed".into());
+            }
+            if FileState::read(&format!("{dir}/out.v2.skf"))?.table != t {
+                return Err("build -o out.v2 did not write out.v2.skf with the built table".into());
+            }
+            if FileState::read(&format!("{dir}/x.plus_y.skf"))?.table != t.merge(&to) {
+                return Err("merge -o x.plus_y did not write x.plus_y.skf with the merged table".into());
+            }
+            if o3.is_some() && FileState::read(&format!("{dir}/x.minus.first.skf"))?.table != t.delete(&[names[0].clone()]) {
+                return Err("delete -o x.minus.first did not write x.minus.first.skf".into());
+            }
+            if std::fs::read(format!("{dir}/x.skf")).unwrap_or_default() != before {
+                return Err("a command with a dotted -o prefix overwrote its input x.skf".into());
+            }
+            Ok(())
+        })());
+    }
     // merge in both orders, then nk on the merged file
     for (first, second, want) in [("x.skf", "y.skf", t.merge(&to)), ("y.skf", "x.skf", to.merge(&t))] {
         let _ = std::fs::remove_file(format!("{dir}/m.skf"));
